@@ -350,3 +350,49 @@ Proof.
       left. exists lp. split; [exact El|]. split; [apply N.eqb_eq; exact H1|]. split; [apply negb_true_iff; exact H2'|apply N.ltb_lt; exact H3]. }
   split; [exact Hst|]. apply read_stable_e; assumption.
 Qed.
+
+(* ------------------------------------------------------------------ the history oracle over one joint trace with many readers *)
+(* how an observation came about inside the joint trace tr: an own write; or a point get served at a cut A | B of the
+   trace under the 2PC rules; or the same with the lock met belonging to a transaction whose primary was pushed *)
+Inductive served_trace (tr : list tev) (o : read_obs) : Prop :=
+| stt_own w : ro_own o = Some w -> ro_val o = w -> served_trace tr o
+| stt_2pc A B rs v : tr = A ++ B -> ro_own o = None -> ro_ts o <> max_ts ->
+    get (run (cmds_of A)) (ro_key o) (ro_ts o) rs = RGet v -> ro_val o = option_map fst v ->
+    trules (ro_key o) [] 0 [] (A ++ B) = true -> ro_ts o <= tlast 0 A -> forallb (gc_ok (ro_ts o)) (cmds_of B) = true ->
+    met_rule (run (cmds_of A)) (ro_key o) (ro_ts o) (flat_map cmd_pairs (cmds_of B)) = true ->
+    served_trace tr o
+| stt_push A B rs v kp s : tr = A ++ B -> ro_own o = None -> ro_ts o <> max_ts ->
+    get (run (cmds_of A)) (ro_key o) (ro_ts o) rs = RGet v -> ro_val o = option_map fst v ->
+    trules (ro_key o) [] 0 [] (A ++ B) = true -> prules kp s (run (cmds_of A)) B = true ->
+    ro_ts o <= tlast 0 A -> forallb (gc_ok (ro_ts o)) (cmds_of B) = true ->
+    pushed (run (cmds_of A)) kp s (ro_ts o) = true ->
+    met_rule_p (run (cmds_of A)) (ro_key o) s (ro_ts o) (flat_map cmd_pairs (cmds_of B)) = true ->
+    served_trace tr o.
+
+Lemma optv_eqb_refl' a : optv_eqb a a = true.
+Proof. destruct a; cbn; [apply N.eqb_refl|reflexivity]. Qed.
+
+Lemma obs_from_stable a b o rs v : oracle_ts (a ++ b) = true -> ro_own o = None -> ro_ts o <> max_ts ->
+  get (run a) (ro_key o) (ro_ts o) rs = RGet v -> ro_val o = option_map fst v ->
+  read_at (run (a ++ b)) (ro_key o) (ro_ts o) = read_at (run a) (ro_key o) (ro_ts o) ->
+  obs_ok (full_history (run (a ++ b))) o = true.
+Proof.
+  intros Ho Eo Hne Hget Ev Hrs. unfold obs_ok. rewrite Eo, Ev, hist_lookup_full.
+  pose proof (snapshot_read a (ro_key o) (ro_ts o) rs) as Hsr. unfold snapshot_read_stmt in Hsr.
+  rewrite Hget in Hsr. destruct Hsr as [Hv Heff]. rewrite (Heff Hne) in Hv.
+  rewrite <- read_at_hist by (apply (proj2 (run_sorted (a ++ b)))).
+  rewrite Hrs. rewrite read_at_hist by (apply (proj2 (run_sorted a))).
+  unfold hist_read. rewrite Hv. apply optv_eqb_refl'.
+Qed.
+
+Theorem history_oracle_sound_trace tr obs : oracle_ts (cmds_of tr) = true -> Forall (served_trace tr) obs ->
+  si_ok (full_history (run (cmds_of tr))) obs = true.
+Proof.
+  intros Ho Hf. unfold si_ok. apply forallb_forall. intros o Hin. rewrite Forall_forall in Hf.
+  destruct (Hf o Hin) as [w Eo Ev|A B rs v Etr Eo Hne Hget Ev Hr Ht Hgc Hmet|A B rs v kp s Etr Eo Hne Hget Ev Hr Hpr Ht Hgc Hpu Hmet].
+  - unfold obs_ok. rewrite Eo, Ev. apply optv_eqb_refl'.
+  - subst tr. rewrite cmds_of_app in *. eapply obs_from_stable; try eassumption.
+    apply (proj2 (twopc_read_stable A B (ro_key o) (ro_ts o) Hr Ht Ho Hgc Hmet)).
+  - subst tr. rewrite cmds_of_app in *. eapply obs_from_stable; try eassumption.
+    apply (proj2 (pushed_read_stable A B (ro_key o) kp s (ro_ts o) Hr Hpr Ht Ho Hgc Hpu Hmet)).
+Qed.
